@@ -94,6 +94,9 @@ class Subscription(collections.namedtuple('Subscription', 'node, port')):
             raise _exception.TopologyError('Apply/Train collision')
         if isinstance(port, (Train, Label)) and any(subscriber.output):
             raise _exception.TopologyError('Publishing node trained')
+        if isinstance(port, (Train, Label)) and any(f.trained for f in subscriber.group if f is not subscriber):
+            # (enforced here rather than just in Worker.train so that it also holds for the plain port API)
+            raise _exception.TopologyError('Fork train collision')
         cls._PORTS[subscriber].add(port)
         return super().__new__(cls, subscriber, port)
 
